@@ -128,6 +128,16 @@ func (g *G) kind() string {
 }
 
 // Const returns a constant of the given kind.
+// BoundaryInts adds, one time in eight, the ends of the integer range (and -1, which turns one into
+// the other) to the pool of integer constants. Arithmetic on them overflows for some matches and not
+// for others, so it is only for generators whose oracle knows what a failing match means (the
+// reference model); the relational oracles are stated for the error-free fragment.
+func (g *G) BoundaryInts() {
+	if g.R.Intn(8) == 0 {
+		g.Ints = append(g.Ints, []int64{-1 << 63, 1<<63 - 1, -1}[g.R.Intn(3)], -1)
+	}
+}
+
 func (g *G) Const(kind string) ref.Term {
 	r := g.R
 	switch kind {
